@@ -226,6 +226,13 @@ def conditions(prop, tier):
                         extra_pre=['len(word) <= %d' % (2 if q else 3)],
                         bounds='%s word on kind %s: ONE symbolic identifier string len<=%d; a neighbouring declaration must keep its own data'
                                % ('MAX-ACCESS' if which else 'STATUS', STATUS_KINDS[k], 2 if q else 3)))
+    # node types (table / row / column / scalar) are part of each symbol's record: the table model of C06 is reused
+    for hs, hy in ((True, False), (True, True)):
+        out.append(dict(name='C03.nodetype.table-s%d-h%d' % (hs, hy), module='harness.c06_refs', fn='table',
+                        fixed=dict(ncols=2, nidx=1, has_seq=hs, hy=hy, x1=0, x2=0, im1=False, im2=False), timeout=t,
+                        extra_pre=['order < 24'] if not q else ['order % 4 == 0'],
+                        bounds='table with 2 columns (plain / hyphenated names): table, row, column and scalar node types for every placement of the '
+                               'SEQUENCE type relative to table, row and columns (quick: every 4th of the 24 orders)'))
     out.append(dict(name='C03.units', fn='units', fixed={}, timeout=t,
                     bounds='UNITS text: one symbolic quoted string, len<=5 incl. quotes, identity text filter'))
     out.append(dict(name='C03.revisions', fn='revisions', fixed={}, timeout=t,
